@@ -216,6 +216,32 @@ def faults(spec):
                             yield ("m_shapesys_reuse", "samechannel" if cj == ci else "otherchannel"), s
 
 
+def shape_signature(o):
+    """structure of a spec with every number replaced by 0 (names, types and all list lengths kept)."""
+    if isinstance(o, dict):
+        return {k: shape_signature(v) for k, v in sorted(o.items())}
+    if isinstance(o, list):
+        return [shape_signature(v) for v in o]
+    if isinstance(o, (int, float)) and not isinstance(o, bool):
+        return 0
+    return o
+
+
+def lengths_consistent(spec):
+    for c in spec["channels"]:
+        nb = len(c["samples"][0]["data"])
+        for s_ in c["samples"]:
+            if len(s_["data"]) != nb:
+                return False
+            for m_ in s_["modifiers"]:
+                d = m_.get("data")
+                if m_["type"] == "histosys" and (len(d["lo_data"]) != nb or len(d["hi_data"]) != nb):
+                    return False
+                if m_["type"] in ("shapesys", "staterror") and len(d) != nb:
+                    return False
+    return True
+
+
 def outcome_of(fn):
     import pyhf
 
@@ -299,12 +325,17 @@ def eval_case(case):
     if not o.startswith("pyhf:"):
         issues.append(C.issue(f"C20:j_undefined_poi:workspace:{o}", "undefined POI name in a measurement not refused", labels=labels))
     if case.get("pairs"):
+        sig0 = shape_signature(spec)
         for key1, fs1 in flist:
             try:
                 second = list(faults(fs1))
             except Exception:
                 continue
             for key2, fs2 in second:
+                if shape_signature(fs2) == sig0:
+                    continue  # the second fault undid the first (e.g. one bin longer, then one bin shorter): a consistent spec again
+                if key1[0] in ("d_sample_len", "e_modlen") and key2[0] in ("d_sample_len", "e_modlen") and lengths_consistent(fs2):
+                    continue  # two length changes that add up to a consistent channel with a different bin count
                 n += 1
                 o, m = outcome_of(lambda: pyhf.Model(fs2, poi_name="mu"))
                 counts[("pair", o)] = counts.get(("pair", o), 0) + 1
